@@ -1,5 +1,5 @@
 (* Observers of the repaired directed model agree with the spec after every valid history (C01, C03), and the pinned model does not (C03_refuted). *)
-From BG Require Import Base DirectedModel DirectedProofs DirectedSpec DirectedRefine.
+From BG Require Import Base DirectedModel DirectedProofs DirectedIter DirectedSpec DirectedRefine.
 Local Open Scope Z_scope.
 
 Section Obs.
@@ -17,9 +17,8 @@ Lemma smem_In_keys a e : smem e a = true <-> In e (map fst (se a)).
 Proof. unfold smem. induction (se a) as [|[k v] m IH]; simpl; [split; [discriminate|tauto]|].
   destruct (edge_eqb_spec k e) as [->|NE]; [split; auto|]. rewrite IH. split; auto. intros [?|?]; auto; congruence. Qed.
 
-Definition flatten g : list edge := flat_map (fun i => map (pair i) (nb g i)) (seq 0 (size g)).
 Lemma In_flatten g i j : Inv has_store g -> In (i, j) (flatten g) <-> In j (nb g i).
-Proof. intros I. unfold flatten. rewrite in_flat_map. split.
+Proof. intros I. unfold flatten, rows_from, row. rewrite in_flat_map. split.
   - intros [x [_ H]]. apply in_map_iff in H as [y [E H]]. injection E as -> ->; auto.
   - intros H. exists i; split; [apply in_seq; apply (i_rng _ _ I) in H; lia|apply in_map; auto]. Qed.
 Lemma NoDup_flat_map_pair (f : nat -> list nat) l : NoDup l -> (forall i, NoDup (f i)) -> NoDup (flat_map (fun i => map (pair i) (f i)) l).
@@ -29,7 +28,7 @@ Proof. induction 1 as [|x l Hx ND IH]; intros F; simpl; [constructor|]. apply No
     apply in_flat_map in H2 as [z [Hz H2]]. apply in_map_iff in H2 as [y' [E _]]. injection E as <- _. contradiction.
 Qed.
 Lemma NoDup_flatten g : Inv has_store g -> NoDup (flatten g).
-Proof. intros I. apply NoDup_flat_map_pair; [apply seq_NoDup|apply (i_nodup _ _ I)]. Qed.
+Proof. intros I. unfold flatten, rows_from, row. apply NoDup_flat_map_pair; [apply seq_NoDup|apply (i_nodup _ _ I)]. Qed.
 
 Lemma length_flat_total (a : list (list nat)) : forall k,
   Z.of_nat (length (flat_map (fun i => map (pair i) (nth (i - k) a [])) (seq k (length a)))) = total a.
@@ -38,7 +37,7 @@ Proof. induction a as [|x t IH]; intros k; simpl; auto.
   apply flat_map_ext_in'. intros i Hi. apply in_seq in Hi. replace (i - k)%nat with (S (i - S k)) by lia. reflexivity.
 Qed.
 Lemma length_flatten g : Inv has_store g -> Z.of_nat (length (flatten g)) = total (adj g).
-Proof. intros I. unfold flatten, nb. rewrite <- (i_len _ _ I), <- (length_flat_total (adj g) 0).
+Proof. intros I. unfold flatten, rows_from, row, nb. rewrite <- (i_len _ _ I), <- (length_flat_total (adj g) 0).
   f_equal. f_equal. apply flat_map_ext_in'. intros i _. rewrite Nat.sub_0_r; auto. Qed.
 
 Theorem edge_number_is_cardinal g a : Rf has_store g a -> SInv a -> enum g = Z.of_nat (length (se a)).
